@@ -659,6 +659,14 @@ def run(ctx):
     from .c10 import _classifier_rule
     rules.append(_classifier_rule(ctx, "C03", "C03.R7"))
     rules.append(_trigger_reference_rule(ctx))
+    # a select from a repeat rewrites the paths INTO the repeat to item-relative ones and leaves every other path as it
+    # was resolved - also paths whose text merely starts with the repeat's path (shared with C09.R5)
+    from . import c09 as _c09
+    from .c08 import _take
+    r9 = Rule("C03", "C03.R9", "references in a select-from-repeat filter keep their target", floor=5,
+              necessary="a reference to a node outside the repeat that is cut after the repeat's path names no node")
+    _take(r9, _c09.run(ctx), "C09.R5", lambda c: c.startswith("select from repeat["))
+    rules.append(r9)
     return rules
 
 
